@@ -69,7 +69,7 @@ func specLargestUnit(d time.Duration) int64 {
 //@ requires [paging.args] !isnil(ctx) && !isnil(s) && !isnil(cmd)
 //@ invariant 0 [C05+C16.page-bounds] totalInstances <= 255 && cmd.Req.Instance == 0
 //@ decreases 0 ite(len(recordIDs) < 256, 256 - len(recordIDs), 0)
-//@ invariant 1 [C16.page-copy] len(recordIDs) == atentry(len(recordIDs)) + rangeindex + 1
+//@ invariant 1 [C16.page-copy] len(recordIDs) == atentry(len(recordIDs)) + iter
 //@ at Session).SendCommand assert [C16.page-ctx] arg[context.Context](1) == ctx
 //@ at Session).SendCommand assert [C16.page-all] cmd.Req.Instance == 0
 //@ at Session).SendCommand assert [C16.page-start] cmd.Req.InstanceStart == uint8(len(recordIDs)+1)
